@@ -228,6 +228,12 @@ def lib_div_bounds(ex, st, lo, hi, q, n):
     return vbool(z3.Implies(z3.And(n > 0, lo * n <= q * n, q * n <= hi * n), z3.And(lo <= q, q <= hi)))
 
 
+def lib_mul_eq(ex, st, a, b, c):
+    """a == b  ==>  a*c == b*c  (multiplying an equation by a term, which the arithmetic solver will not do unprompted)"""
+    a, b, c = _r(a), _r(b), _r(c)
+    return vbool(z3.Implies(a == b, a * c == b * c))
+
+
 def sf_sqrt(ex, st, x):
     from . import mathlib
     ex.ctx.math_used.add("sqrt")
@@ -247,7 +253,8 @@ def lib_schemas():
             ("mul_cancel", [], z3.ForAll([a, b, c], mk(lib_mul_cancel, a, b, c))),
             ("sq_eq", [], z3.ForAll([a, b], mk(lib_sq_eq, a, b))),
             ("sq_prod", [], z3.ForAll([a, b], mk(lib_sq_prod, a, b))),
-            ("div_bounds", [], z3.ForAll([a, b, c, d], mk(lib_div_bounds, a, b, c, d)))]
+            ("div_bounds", [], z3.ForAll([a, b, c, d], mk(lib_div_bounds, a, b, c, d))),
+            ("mul_eq", [], z3.ForAll([a, b, c], mk(lib_mul_eq, a, b, c)))]
 
 
 _install1 = install
@@ -257,4 +264,4 @@ def install(reg):  # noqa: F811
     _install1(reg)
     reg.specfuncs.update(mul_nonneg=lib_mul_nonneg, mul_mono=lib_mul_mono, sq_nonneg=lib_sq_nonneg, distrib=lib_distrib,
                          div_cancel=lib_div_cancel, div_sign=lib_div_sign, sq_mono=lib_sq_mono, mul_cancel=lib_mul_cancel,
-                         sq_eq=lib_sq_eq, sq_prod=lib_sq_prod, sqrt=sf_sqrt, div_bounds=lib_div_bounds)
+                         sq_eq=lib_sq_eq, sq_prod=lib_sq_prod, sqrt=sf_sqrt, div_bounds=lib_div_bounds, mul_eq=lib_mul_eq)
